@@ -13,7 +13,10 @@ Cells == { Str(<<"a">>), Str(<<"1", ".", "0">>), Str(<<" ", "x", " ">>), Str(<<>
     \cup { Whole(FALSE, <<"0">>), Whole(FALSE, <<"7">>), Whole(TRUE, <<"4", "2">>), Whole(FALSE, <<"1", "0", "0", "0", "0", "0", "0">>),
            Whole(FALSE, <<"9", "0", "0", "7", "1", "9", "9", "2", "5", "4", "7", "4", "0", "9", "9", "2">>),
            Whole(TRUE, <<"9", "0", "0", "7", "1", "9", "9", "2", "5", "4", "7", "4", "0", "9", "9", "1">>),
-           Whole(FALSE, <<"4", "2", "9", "4", "9", "6", "7", "2", "9", "6">>) }
+           Whole(FALSE, <<"4", "2", "9", "4", "9", "6", "7", "2", "9", "6">>),
+           \* numbers stored exactly like a cell of another kind: TRUE, the date 2020-02-29 (0, FALSE and 00:00:00, and
+           \* 1/2 and 12:00:00, are in the pool anyway); the kind, not the stored value, decides the text
+           Whole(FALSE, <<"1">>), Whole(FALSE, DigitsOf(SerialOfCivil(2020, 2, 29))) }
     \cup { Dy(FALSE, 1, 1), Dy(TRUE, 3, 2), Dy(FALSE, 5, 3), Dy(FALSE, 1, 4), Dy(FALSE, 123457, 3), Dy(TRUE, 98765, 4) }
     \cup { [k |-> "bool", b |-> TRUE], [k |-> "bool", b |-> FALSE] }
     \cup { [k |-> "date", serial |-> s] : s \in Dates }
